@@ -28,7 +28,7 @@ impl Rng {
 /// strings: everything awkward (these checks do not compare with the OLPC reference, so the classes of the open C11 findings -
 /// control characters, backslash + `n` - take part as well)
 const TEXTS: &[&str] = &["", " ", "a", "A", "a b", " a", "a ", "a  b", "x/", "/x", "/", "//", "./x", "x/../x", "*", "?", "[", "x*", "line\nbreak", "\n", "quo\"te", "back\\slash", "\\", "trailing\\",
-    "bs-lf\\\nend", "\r", "\r\n", "a\r\nb", "a\nb", "\t", "\u{0}", "\u{1f}", "\\n", "\\\\n", "\\r", "\u{e9}", "\u{20ac}\u{1F600}", "\u{7f}", "IN", "WITH", "FROM", "MATCH", "null", "0", "-1", "1e3", "{}", "[]", "sha256", "link", "layout"];
+    "bs-lf\\\nend", "\r", "\r\n", "a\r\nb", "a\nb", "\t", "\u{0}", "\u{1f}", "\\n", "\\\\n", "\\r", "\u{e9}", "\u{20ac}\u{1F600}", "\u{7f}", "IN", "WITH", "FROM", "MATCH", "DEPLOY_TOKEN", "MY_SECRET", "db_password", "API_KEY", "PATH", "HOME", "keyid", "sig", "signed", "_type", "null", "0", "-1", "1e3", "{}", "[]", "sha256", "link", "layout"];
 
 fn text(rng: &mut Rng) -> String { (*rng.pick(TEXTS)).to_string() }
 fn opt_text(rng: &mut Rng) -> Option<String> { if rng.chance(40) { None } else { Some(text(rng)) } }
